@@ -87,6 +87,7 @@ COMP = Component(
     spec="AllocPE", name="PriorityEncoderAllocator", build=build, methods=methods,
     has_arg=lambda m: m.startswith("free") or m == "replace",
     gen_arg=gen_arg, want=want, tracker=Tracker, module=__name__,
+    shadow=lambda cfg: [m for m in methods(cfg) if m.startswith(("alloc", "free")) or m == "replace"],
     trace_extra=STEP_EXTRA, trace_extra_names=STEP_EXTRA_NAMES,
 )
 
